@@ -57,7 +57,7 @@ Print Assumptions C10_accept_implies_safe_use.
    accepted configurations whose uses in calc_acf have a false precondition. *)
 Theorem C10_accept_implies_safe_use_refuted_corrfunc :
   (exists c, r_err (colvar_init 0 c) = false /\
-             forall host h, all_ok (corrfunc_uses host (r_state (colvar_init 0 c)) h) = false) /\
+             forall host, all_ok (corrfunc_uses host (r_state (colvar_init 0 c)) 0) = false) /\
   (exists c, r_err (colvar_init 0 c) = false /\ all_ok (corrfunc_uses harness_bytes (r_state (colvar_init 0 c)) 0) = false) /\
   (exists c, r_err (colvar_init 0 c) = false /\ all_ok (corrfunc_uses harness_bytes (r_state (colvar_init 0 c)) 0) = false /\
              s_cflen (r_state (colvar_init 0 c)) = 2) /\
